@@ -1,12 +1,12 @@
 /// CBMC-friendly reference implementation of RFC 3986 percent-decoding (what `percent_encoding::percent_decode` computes:
 /// `%XY` with two hex digits -> that byte, everything else verbatim).  Used as the ASSUMED CONTRACT of the external crate
-/// (stubbed for ohkami_lib::percent_encoding::{percent_decode, percent_decode_utf8}); input length <= 12.
+/// (stubbed for ohkami_lib::percent_encoding::{percent_decode, percent_decode_utf8}); input length <= 24.
 fn spec_hex(b: u8) -> Option<u8> {
     match b { b'0'..=b'9' => Some(b - b'0'), b'a'..=b'f' => Some(b - b'a' + 10), b'A'..=b'F' => Some(b - b'A' + 10), _ => None }
 }
 pub(super) fn spec_percent_decode(input: &[u8]) -> std::borrow::Cow<'_, [u8]> {
-    assert!(input.len() <= 12, "harness bound of the percent-decoding stub");
-    let mut out = [0u8; 12];
+    assert!(input.len() <= 24, "harness bound of the percent-decoding stub");
+    let mut out = [0u8; 24];
     let (mut i, mut n, mut any) = (0usize, 0usize, false);
     while i < input.len() {
         if input[i] == b'%' && i + 2 < input.len() + 0 + 1 - 0 && i + 2 <= input.len() - 1 + 0 {
